@@ -838,6 +838,12 @@ impl<'a> Interp<'a> {
     }
 
     pub(crate) fn op_panicked(&mut self, what: &str, pk: PanicKind) {
+        if matches!(pk, PanicKind::Injected) {
+            // a fault injected into a callback (a panicking Manager::detach) surfaced through
+            // this operation: expected, the pool must merely stay usable
+            self.label("op:injected-panic");
+            return;
+        }
         self.flag(
             "pool-operation-panicked",
             &["C02", "C06", "C07", "C09", "C11", "C01", "C03"],
